@@ -99,7 +99,15 @@ class ResurrectorSink(ClientMessageSink):
     if not self.next_sink:
       self.next_sink = self._next_factory.CreateSink(self._properties)
       self.next_sink.on_faulted.Subscribe(self._OnSinkFaulted)
-    return self.next_sink.Open()
+    sink = self.next_sink
+    open_ar = sink.Open()
+    def on_open_done(ar):
+      # An endpoint that is unreachable at the first connect is as down as one
+      # that faults later: fail fast and start resurrecting it.
+      if ar.exception and not self._down_on and self.next_sink is sink:
+        self._OnSinkFaulted(ar.exception)
+    open_ar.rawlink(on_open_done)
+    return open_ar
 
   def Close(self):
     if self._resurrector:
